@@ -3,6 +3,7 @@ import numpy as np
 from lib import common as C, het as H, models as M
 
 GEN = ['HetFacts', 'Solvers']
+IMPORTS = ['C08/kernel_weights', 'C08/lottery_1d_laws', 'C08/lottery_2d_laws', 'C08/markov_laws', 'C08/combined_shock_product_rule', 'C17/robust_bracket', 'C17/coord_reproduces_query', 'C17/monotone_equals_robust']
 TRUSTED = ['scipy brentq / root internals', 'root finders (C20), transitions (C08), iterate-until contract (C17)']
 ASSUMPTIONS = ['convergence of the backward/forward iterations and of the outer solvers for a given calibration is not proved; the contracts are: return only after '
                'a passed test, raise otherwise', 'fixed-point, invariance, aggregation and target residuals are checked on the implementation over a calibration box']
@@ -109,7 +110,7 @@ def check(rng, deep):
             tv = targets if isinstance(targets, dict) else {t: 0.0 for t in targets}
             for t, v in tv.items():
                 want = ss[v] if isinstance(v, str) else v
-                if abs(ss[t] - want) > 1e-7:
+                if abs(ss[t] - want) > (1e-7 if solver == 'hybr' else 2e-11):          # the requested tolerance (default ttol = 1e-12) must reach the bundled solvers
                     C.push(out, dict(what=f'a requested target is not hit to the solver tolerance ({t})', input=inp, observed=float(ss[t]), expected=float(want), signature=dict(op='target', solver=solver)))
             re = flat.steady_state({k: ss[k] for k in flat.inputs})
             if max(abs(re[k] - ss[k]) for k in re.toplevel) > 1e-10:
